@@ -87,7 +87,7 @@ def examine(mode, w):
     pos = 0
     n = len(w)
     for i, t in enumerate(toks):
-        s, e = t.start, t.end
+        s, e = getattr(t, 'start', None), getattr(t, 'end', None)        # a slot that was never set is an undefined span, not a harness error
         if not isinstance(s, int) or not isinstance(e, int):
             bad.append(('%s:span-undefined:%s' % (mode, t.type), dict(index=i, start=s, end=e)))
             break
